@@ -15,6 +15,24 @@ CHECKS = {
              "of the kinds (Expr.tla!Denote over Gaussian rationals); every TLC state is replayed through cola's public "
              "constructors and shape, dtype, to_dense, densify, A@x, A@X and result dtypes are compared with TLC's values.",
         design="5/C01", technique="TLC state enumeration of MC_Ops + spec-to-code replay of every state"),
+    "C02": dict(
+        text="Same TLC model with the .T/.H and annotation-wrapper actions: TLC computes the exact matrix of every tree "
+             "(annotations are only attached where TLC has verified them true of the exact matrix); replay observes "
+             "x@A, X@A and towers of .T/.H up to depth 3 (A.T.T, A.H.H, ...) on the real operators.",
+        design="5/C02", technique="TLC state enumeration of MC_Ops + spec-to-code replay of every state"),
+    "C03": dict(
+        text="TLC enumerates algebraic expressions (+, -, unary -, c*, *c, /c, c/, @, kron, kronsum, block_diag, sum(), "
+             "operands incl. plain arrays and ten scalar objects) and computes the exact matrix, shape and promoted "
+             "dtype of the mathematical expression, marking shape-mismatched applications ill-formed; replay evaluates "
+             "the same Python expression on real operands and requires TLC's matrix/shape/dtype or, for ill-formed "
+             "ones, an exception.",
+        design="5/C03", technique="TLC state enumeration of MC_Ops + spec-to-code replay of every state"),
+    "C20": dict(
+        text="TLC resolves every index form (ints, slices incl. negative/strided/empty, integer arrays, lists) with the "
+             "transcribed Python slice.indices / negative-wrap semantics (PyIndex.tla) on every operator tree and "
+             "gathers the exact entries; replay evaluates A[...] on the real operator (scalars, vectors, lazy slices, "
+             "their dense form and products with real and complex operands).",
+        design="5/C20", technique="TLC state enumeration of MC_Ops/PyIndex + spec-to-code replay of every state"),
 }
 
 NOT_APPLICABLE = {
